@@ -145,6 +145,7 @@ inductive Event where
   | decided (sup victim : Aid) (d : Directive) (count : Nat)
   | spawned (parent child : Aid)
   | watch (w t : Aid) | unwatch (w t : Aid)            -- the request was issued
+  | killreq (t : Aid)                                  -- `Terminate(t, _)` was called
   deriving Repr, DecidableEq, Inhabited
 
 structure World where
@@ -227,6 +228,12 @@ def resolve (n : Nat) (self : Aid) (x : Actor) : Target → Option Aid
 def terminateReq (self t : Aid) (graceful : Bool) : M Unit :=
   if graceful then sendUser t .graceful none else sendSys t (.terminate false) (some self)
 
+/-- a `Terminate` call made by user code or from outside (recorded; the runtime's own fan-out to
+children is not) -/
+def terminateCall (self t : Aid) (graceful : Bool) : M Unit := do
+  modify fun w => { w with events := w.events ++ [.killreq t] }
+  terminateReq self t graceful
+
 /-- `ActorOf`: provider, register, bind to the parent, first message `OnLaunch` (sender = parent) -/
 def spawnChild (parent : Aid) (beh : Nat) : M Aid := do
   let w ← get
@@ -254,8 +261,8 @@ def runAction (self : Aid) : Action → M Unit
   | .spawn beh => do let _ ← spawnChild self beh
   | .kill t g => do
       match resolve (← get).actors.length self (← getA self) t with
-      | some t => terminateReq self t g
-      | none => terminateReq self 1000000 g
+      | some t => terminateCall self t g
+      | none => terminateCall self 1000000 g
   | .watch t => do
       -- (scripted actors never watch themselves: scenario-language restriction)
       match resolve (← get).actors.length self (← getA self) t with
@@ -390,7 +397,7 @@ def onWatch (self : Aid) (sender : Option Aid) : M Unit := do
   match sender with
   | none => pure ()
   | some s =>
-    if x.status.rank ≥ Status.terminating.rank then sendSys s (.terminated self) (some self)
+    if x.status == .terminated then sendSys s (.terminated self) (some self)
     else modA self fun x => { x with watchers := if x.watchers.contains s then x.watchers else x.watchers ++ [s] }
 
 def onUnWatch (self : Aid) (sender : Option Aid) : M Unit :=
@@ -401,12 +408,6 @@ def onUnWatch (self : Aid) (sender : Option Aid) : M Unit :=
 /-- `ProcessSystemMessage` → `processMessage(…, true)` -/
 def sysTurn (self : Aid) (m : SMsg) (sender : Option Aid) : M Unit := do
   modA self fun x => { x with curSender := sender }
-  if (← getA self).status == .terminated then
-    -- a terminated actor handles nothing any more; watch requests are still answered
-    match m with
-    | .watch => onWatch self sender
-    | _ => pure ()
-  else
   match m with
   | .launch => userTurn self .launch sender        -- + recoveryPersistence (C09 sub-model)
   | .restarted => userTurn self .restarted sender
@@ -418,6 +419,14 @@ def sysTurn (self : Aid) (m : SMsg) (sender : Option Aid) : M Unit := do
   | .unwatch => onUnWatch self sender
   | .suspendMark | .resumeMark => pure ()      -- never queued (see `sendSys`)
 
+/-- `processMessage(…, true)` of an actor whose status is `terminated`: it handles nothing any more;
+watch requests are still answered -/
+def deadTurn (self : Aid) (m : SMsg) (sender : Option Aid) : M Unit := do
+  modA self fun x => { x with curSender := sender }
+  match m with
+  | .watch => onWatch self sender
+  | _ => pure ()
+
 /-- built-in behaviour of the subscription actor for a local publish on the dead-letter topic -/
 def subPublish (inner : UMsg) (pubSender : Option Aid) : M Unit := do
   let w ← get
@@ -425,25 +434,18 @@ def subPublish (inner : UMsg) (pubSender : Option Aid) : M Unit := do
 
 /-- `ProcessUserMessage` -/
 def usrTurn (self : Aid) (m : UMsg) (sender : Option Aid) : M Unit := do
-  let x ← getA self
-  if x.status.rank ≥ Status.terminating.rank then
-    -- deliveryUserMessage(abyssRef, receiver, sender, nil, message)
-    abyssUser self m sender
-  else
-    match m with
-    | .graceful => do
-        modA self fun x => { x with curSender := sender, graceful := true }
-        sendSys self (.terminate false) (some self)
-    | .user tag => userTurn self (.user tag) sender
-    | .publish _ inner => do
-        modA self fun x => { x with curSender := sender }
-        if self == 1 then do
-          modA self fun x => { x with log := x.log }   -- the subscription actor's own handler
-          subPublish inner sender
-        else pure ()
-    | .dead _ r inner => do
-        let tag := match inner with | .user t => t | _ => 0
-        userTurn self (.dead r tag) sender
+  match m with
+  | .graceful => do
+      modA self fun x => { x with curSender := sender, graceful := true }
+      sendSys self (.terminate false) (some self)
+  | .user tag => userTurn self (.user tag) sender
+  | .publish _ inner => do
+      modA self fun x => { x with curSender := sender }
+      if self == 1 then subPublish inner sender   -- the subscription actor's own handler
+      else pure ()
+  | .dead _ r inner => do
+      let tag := match inner with | .user t => t | _ => 0
+      userTurn self (.dead r tag) sender
 
 /-- `ReportAbnormal` from the mailbox's recover handler -/
 def reportAbnormal (self : Aid) : M Unit := do
@@ -489,13 +491,17 @@ def runOne (w : World) (a : Aid) : World :=
     match x.sysQ with
     | (m, s) :: rest =>
         let w1 := { w with actors := w.actors.modify a fun x => { x with sysQ := rest } }
-        guarded a (sysTurn a m s) w1
+        -- `processMessage(…, true)`: a terminated actor only answers watch requests
+        if x.status == .terminated then guarded a (deadTurn a m s) w1
+        else guarded a (sysTurn a m s) w1
     | [] =>
       if x.suspended then { w with actors := w.actors.modify a fun x => { x with hasRunner := false } }
       else match x.userQ with
       | (m, s) :: rest =>
           let w1 := { w with actors := w.actors.modify a fun x => { x with userQ := rest } }
-          guarded a (usrTurn a m s) w1
+          -- `ProcessUserMessage`: once terminating, user messages go to the dead letters
+          if x.status.rank ≥ Status.terminating.rank then guarded a (abyssUser a m s) w1
+          else guarded a (usrTurn a m s) w1
       | [] => { w with actors := w.actors.modify a fun x => { x with hasRunner := false } }
 
 def extern (t : M Unit) (w : World) : World := ((t.run).run w).2
@@ -511,8 +517,8 @@ def step (w : World) : Op → World
   | .tell t tag => if w.crashed then w else
       extern (sendUser (if t < w.actors.length then t else ghostBase + t) (.user tag) none) w
   | .kill t g => if w.crashed then w else
-      extern (terminateReq 0 (if t < w.actors.length then t else ghostBase + t) g) w
-  | .shutdown g => if w.crashed then w else extern (terminateReq 0 0 g) w
+      extern (terminateCall 0 (if t < w.actors.length then t else ghostBase + t) g) w
+  | .shutdown g => if w.crashed then w else extern (terminateCall 0 0 g) w
   | .subscribeDead a => { w with deadSubs := w.deadSubs ++ [a] }
 
 /-- a fresh system: guard (0, no parent, its actor is a OneForOne(10) restart strategy) and the
